@@ -365,8 +365,19 @@ fn main() {
         // is started: tokio's unbiased select! polls the two branches in random order, the run is not determined by its
         // inputs.  Visible as a write attempted at the instant a raced call was started; such runs are not printed.
         if sc.family == "WCAP" {
-            let tie = rec.calls.iter().any(|(t, c)| (c.starts_with("CDisco") || c.starts_with("(CFilt") || c.starts_with("(CSele"))
-                && rec.write_calls.iter().any(|w| w.0 == *t));
+            // boundary instants of the races: every start of a raced call, and the completions of discover / filter
+            // (where the next race starts at once).  Which branch of the select! ran first cannot be told from outside,
+            // and may decide whether the next call is made at all: any write or timeout localization at such an instant.
+            let mut bounds: Vec<u64> = vec![];
+            for (t, c) in rec.calls.iter() {
+                if c.starts_with("CDisco") { bounds.push(*t); bounds.push(*t + sc.ads.discover.1.max(1)); }
+                else if c.starts_with("(CFilt") { bounds.push(*t); bounds.push(*t + sc.ads.filter.1.max(1)); }
+                else if c.starts_with("(CSele") { bounds.push(*t); }
+            }
+            // (a refused write that is merely polled again - same bytes offered, refused again - is not an action)
+            let repoll = |i: usize| i > 0 && rec.write_calls[i].2 < 0 && rec.write_calls[i - 1].2 < 0 && rec.write_calls[i].1 == rec.write_calls[i - 1].1;
+            let tie = rec.write_calls.iter().enumerate().any(|(i, w)| bounds.contains(&w.0) && !repoll(i))
+                || rec.calls.iter().any(|(t, c)| c.starts_with("(CLocalize") && c.contains(&g_hex(b"disconnect_timeout")) && bounds.contains(t));
             if tie { *hist.entry("WCAP:tie-not-printed".to_string()).or_default() += 1; return; }
         }
         *hist.entry(format!("{}:{}", sc.family, rec.outcome)).or_default() += 1;
